@@ -1,16 +1,20 @@
 import PyaModel.Proofs.C01
 /-!
-# Props/C01 — inferred values are sound with respect to execution (stage S1 + S2a: the MiniPy fragment)
+# Props/C01 — inferred values are sound with respect to execution (stages S1, S2a, S1b: the MiniPy fragment)
 
 Fragment (`Core/MiniPy.lean`): functions with declared parameter types; expressions: literals, names,
-tuple / list displays, subscripts with a literal int index, conditional expressions; conditions `x is None`,
-`x is not None`, `not …`; statements: assignment, `if`/`else` (nested, with early `return`), `return`.
+tuple / list displays, subscripts with a literal int index, conditional expressions, calls to annotated helper
+functions; conditions `x is None`, `x is not None`, `not …`; statements: assignment, iterable unpacking
+`x1, …, xn = e` (no starred target), `if`/`else` (nested, with early `return`), `return`.
+Calls: the helper functions are a parameter `impl` of the semantics; the theorems assume `ImplOk impl prog.rets` —
+whatever a helper returns belongs to its declared return type (for ALL arguments: the assumption is on the callee's
+semantics, not on the arguments it is given).
 `infer` is the model of what pyanalyze infers for every expression node (validated against the real
 pyanalyze on every run, stream `mini`), `exec` is CPython's behaviour (`Spec/MiniSem.lean`, validated against
 CPython, stream `eval`), membership is `mem` (`Spec/Mem.lean`).
 
-Loops, `try`, `match`, calls, unpacking, boolean operators and the other narrowing forms of the property are
-NOT covered by these theorems; for them the verdict rests on the execution search of the harness.
+Loops, `try`, `match`, generic / builtin calls, starred unpacking, augmented assignment, boolean operators and the
+other narrowing forms of the property are NOT covered by these theorems; for them the verdict rests on the execution search of the harness.
 -/
 namespace Pya.C01
 open Pya
@@ -18,32 +22,36 @@ open Pya
 /-- **C01 on the fragment, full-strength statement** (false: `literalEqMerge_witness`). Whenever the function
 is called on arguments drawn from the declared parameter types, every value an expression node evaluates to
 belongs to a value pyanalyze inferred for that node. -/
-def InferSound (prog : Prog) : Prop :=
+def InferSound (impl : Impl) (prog : Prog) : Prop :=
   ∀ (args : List Obj), argsOk prog.params args = true →
-    ∀ n o, (n, o) ∈ (exec prog args).2 → ∃ T, (n, T) ∈ (infer prog).log ∧ mem liveTable o T = true
+    ∀ n o, (n, o) ∈ (exec impl prog args).2 → ∃ T, (n, T) ∈ (infer prog).log ∧ mem liveTable o T = true
 
-/-- **Soundness outside the exception classes (stage S1 + S2a).** For every program of the fragment — any size,
-any nesting of `if`/`else` and conditional expressions — on which the inference raises no flag
+/-- **Soundness outside the exception classes (stages S1, S2a, S1b).** For every program of the fragment — any size,
+any nesting of `if`/`else` and conditional expressions, unpacking and helper calls included —, for all helper
+implementations that respect their declared return types (`ImplOk`), on which the inference raises no flag
 (`noneReject`: the model of `is_assignable(Literal[None])` rejects a member that contains `None`, never
 observed; `literalEqMerge`: a literal subscript selects an element equal to 0 / 1 / False / True out of a
-literal container; `frag`: a subscript with an unpacked tuple member or on a base that is not a tuple / list
-form), and for all arguments drawn from the declared parameter types: every value an evaluated expression node
+literal container, or a literal container holding such an element is unpacked; `frag`: a subscript / unpacking
+with an unpacked tuple member or on a base that is not a tuple / list form), and for all arguments drawn from the declared parameter types: every value an evaluated expression node
 yields at run time is a member of the value inferred for that node. Proved by induction on the program, with
 `unite_mem` (C14) for the joins and the C19 `getitem` lemmas for subscripts. -/
-theorem infer_sound_partial (prog : Prog) (hflags : (infer prog).flags.none = true) : InferSound prog := by
+theorem infer_sound_partial (impl : Impl) (prog : Prog) (himpl : ImplOk impl prog.rets)
+    (hflags : (infer prog).flags.none = true) : InferSound impl prog := by
   intro args hargs n o hn
   have hinv := Inv_init prog.params args 0 hargs
-  have h := inferBlock_sound prog.body (initSt prog) [] 0 (initEnv 0 args) hinv hflags
+  haveI : ImplOkC impl prog.rets := ⟨himpl⟩
+  have h := inferBlock_sound (impl := impl) (R := prog.rets) prog.body (initSt prog) [] 0 (initEnv 0 args) hinv hflags
   exact h.1 n o hn
 
 /-- **An expression inferred as `Never` is never reached** (same fragment, same hypotheses): if every value
 recorded for a node is the empty union, no execution evaluates the node. -/
-theorem never_unreachable_partial (prog : Prog) (hflags : (infer prog).flags.none = true)
+theorem never_unreachable_partial (impl : Impl) (prog : Prog) (himpl : ImplOk impl prog.rets)
+    (hflags : (infer prog).flags.none = true)
     (args : List Obj) (hargs : argsOk prog.params args = true) (n : Path)
     (hnever : ∀ T, (n, T) ∈ (infer prog).log → T = Ty.never) :
-    ∀ o, (n, o) ∉ (exec prog args).2 := by
+    ∀ o, (n, o) ∉ (exec impl prog args).2 := by
   intro o hn
-  obtain ⟨T, hT, hm⟩ := infer_sound_partial prog hflags args hargs n o hn
+  obtain ⟨T, hT, hm⟩ := infer_sound_partial impl prog himpl hflags args hargs n o hn
   rw [hnever T hT] at hm
   simp [Ty.never, mem, memAny] at hm
 
@@ -63,6 +71,13 @@ theorem subscript_sound_partial (o r : Obj) (v : Ty) (i : Int) (hm : mem liveTab
     (hs : subObj o i = some r) (hf : (subscript v i).2.none = true) :
     mem liveTable r (subscript v i).1 = true :=
   subscript_sound o r v i hm hs hf
+
+/-- Unpacking a value that contains the iterable yields, target by target, values containing the elements (all value
+shapes of the fragment; unions are unpacked member-wise and united column-wise). -/
+theorem unpack_sound_partial (o : Obj) (v : Ty) (n : Nat) (os : List Obj) (hm : mem liveTable o v = true)
+    (hi : iterObj o = some os) (hlen : os.length = n) (hf : (unpackVals v n).2.none = true) :
+    R2 (fun x t => mem liveTable x t) os (unpackVals v n).1 = true :=
+  unpackVals_sound o v n os hm hi hlen hf
 
 /-! ## The exception class `literalEqMerge` is real
 
@@ -88,9 +103,9 @@ theorem memK_of_mem (o : Obj) (T : Ty) (h : mem liveTable o T = true) : memK o T
 
 /-- decidable necessary condition of the statement for one argument tuple -/
 def soundOnK (prog : Prog) (args : List Obj) : Bool :=
-  (exec prog args).2.all fun no => (infer prog).log.any fun nT => nT.1 == no.1 && memK no.2 nT.2
+  (exec (fun _ _ => none) prog args).2.all fun no => (infer prog).log.any fun nT => nT.1 == no.1 && memK no.2 nT.2
 
-theorem soundOnK_of_InferSound (prog : Prog) (args : List Obj) (h : InferSound prog)
+theorem soundOnK_of_InferSound (prog : Prog) (args : List Obj) (h : InferSound (fun _ _ => none) prog)
     (hargs : argsOk prog.params args = true) : soundOnK prog args = true := by
   unfold soundOnK
   rw [List.all_eq_true]
@@ -104,7 +119,7 @@ theorem witness_flag : (infer witnessProg).flags.litEq = true := by decide +kern
 theorem witness_unsound : soundOnK witnessProg [Obj.none] = false := by decide +kernel
 
 /-- **Witness for `literalEqMerge`:** the full statement is false. -/
-theorem literalEqMerge_witness : ¬ InferSound witnessProg := fun h => by
+theorem literalEqMerge_witness : ¬ InferSound (fun _ _ => none) witnessProg := fun h => by
   have := soundOnK_of_InferSound witnessProg [Obj.none] h witness_args_ok
   rw [witness_unsound] at this
   cases this
@@ -128,11 +143,29 @@ def exProg : Prog :=
              .ifs (.isNone 0 true) [.assign 4 (.sub (.var 3) 1)] [.ret (.sub (.var 1) 0)],
              .ret (.sub (.disp true [.var 4, .var 2]) 0)] }
 
+/-- ```python
+def g2(t: tuple[int, str], x: Literal[5, None]):
+    a, b = t
+    c, d = (a, h1(x))          # h1: (object) -> Optional[str]
+    return [b, d][1] if x is None else h0(c)   # h0: (object) -> int
+``` -/
+def exProg2 : Prog :=
+  { params := [.seq C.tuple [.typed C.int, .typed C.str], .union [.known (.int 5), .known .none]],
+    rets := [.typed C.int, .union [.typed C.str, .known .none]],
+    body := [.unpack [2, 3] (.var 0),
+             .unpack [4, 5] (.disp false [.var 2, .call 1 [.var 1]]),
+             .ret (.ite (.isNone 1 true) (.sub (.disp true [.var 3, .var 5]) 1) (.call 0 [.var 4]))] }
+
+example : (infer exProg2).flags.none = true := by decide +kernel
+example (impl : Impl) (h : ImplOk impl exProg2.rets) : InferSound impl exProg2 :=
+  infer_sound_partial impl exProg2 h (by decide +kernel)
+
 example : (infer exProg).flags.none = true := by decide +kernel
 theorem exProg_args_ok : argsOk exProg.params [.none, .tuple [.int 3, .str "b"]] = true := by
   simp [argsOk, exProg, mem, memAny, memSeq, matchSeq, clsOf, Obj.same, Obj.tag, Obj.pyEq]
   decide +kernel
-example : (exec exProg [.none, .tuple [.int 3, .str "b"]]).2.length = 12 := by decide +kernel
-example : InferSound exProg := infer_sound_partial exProg (by decide +kernel)
+example : (exec (fun _ _ => none) exProg [.none, .tuple [.int 3, .str "b"]]).2.length = 12 := by decide +kernel
+example (impl : Impl) : InferSound impl exProg :=
+  infer_sound_partial impl exProg (fun f os r _ => by simp [exProg, mem]) (by decide +kernel)
 
 end Pya.C01
